@@ -196,17 +196,19 @@ def m_xlmod(rng, context='[]', **_) -> M:
 def m_glycan(rng, **_) -> M:
     from vf.ref import glycan as _g
     v = vocab()
-    ents = rng.sample(v.mono, rng.randint(1, 3))
-    while not _g.unambiguous(''.join(e.name + '1' for e in ents)):
+    while True:
         ents = rng.sample(v.mono, rng.randint(1, 3))
-    # written most-specific-first so that the greedy longest-name tokenizer is unambiguous
-    text, mono, avg, comp = '', 0.0, 0.0, {}
-    for e in ents:
-        cnt = rng.randint(1, 5)
-        text += e.name + str(cnt)
-        mono += e.mono * cnt
-        avg += e.avg * cnt
-        comp = chem.add(comp, e.comp, cnt)
+        cnts = [rng.randint(1, 5) for _ in ents]
+        text = ''.join(e.name + str(c) for e, c in zip(ents, cnts))
+        want = [(e.name, str(c)) for e, c in zip(ents, cnts)]
+        # written so that both the exhaustive and the maximal-munch reading give back the written counts
+        if _g.segmentations(text, 2) == [want] and _g.greedy(text) == want:
+            break
+    mono = sum(e.mono * c for e, c in zip(ents, cnts))
+    avg = sum(e.avg * c for e, c in zip(ents, cnts))
+    comp = {}
+    for e, c in zip(ents, cnts):
+        comp = chem.add(comp, e.comp, c)
     return M('Glycan:' + text, mono=mono, avg=avg, comp=comp, kind='glycan')
 
 
